@@ -149,7 +149,7 @@ class RunResult:
 # known findings
 # --------------------------------------------------------------------------------------
 
-KNOWN_FINDINGS_FILE = os.path.join(VERIF_DIR, "KNOWN_FINDINGS.txt")
+KNOWN_FINDINGS_FILE = os.environ.get("VERIF_KNOWN_FINDINGS", os.path.join(VERIF_DIR, "KNOWN_FINDINGS.txt"))
 _KNOWN_RE = re.compile(r"^known:\s+property=(\S+)\s+kind=(\S+)\s+match=/(.*?)/\s+(.*)$")
 
 
@@ -333,6 +333,7 @@ def run_batch(prop_name, master, tier, n_runs, workers=None, chunk=None, wall_li
         with concurrent.futures.ProcessPoolExecutor(max_workers=workers, mp_context=ctx) as ex:
             futs = [ex.submit(_worker_chunk, (prop_name, master, tier, c, wall_limit)) for c in chunks]
             n_bad = 0
+            known = load_known_findings(prop_name)
             for f in futs:  # merged in seed order, independent of worker scheduling
                 if n_bad >= EARLY_STOP_VIOLATING_RUNS:
                     f.cancel()
@@ -343,7 +344,10 @@ def run_batch(prop_name, master, tier, n_runs, workers=None, chunk=None, wall_li
                     continue
                 except Exception as e:  # BrokenProcessPool, timeout
                     raise HarnessError(f"worker failed: {e!r}")
-                n_bad += len(results[-1]["violations"]) + len(results[-1]["harness_errors"])
+                # only violations that no known-finding line covers count towards the early stop
+                n_bad += len(results[-1]["harness_errors"]) + sum(
+                    1 for rec in results[-1]["violations"] if any(match_known(known, v) is None for v in rec["violations"])
+                )
             if n_bad >= EARLY_STOP_VIOLATING_RUNS:
                 # the property is clearly broken: do not burn the rest of the budget (a prefix of the
                 # seed order was explored; which prefix is reported through the run count)
